@@ -127,7 +127,11 @@ def matches(exp, arch, o, garbled=False):
 def dev_matches(d, arch, o):
     """Observation equals what the spec prescribes under the named deviation d (on the archive/medium the deviation names)."""
     if d.get("only") == "msgpack-stream":
-        return arch == "msgpack" and o.get("medium", "mem") != "mem" and matches(d["exp"], arch, o, garbled=True)
+        if arch != "msgpack" or o.get("medium", "mem") == "mem":
+            return False
+        if d.get("undef"):       # the spec states that under this deviation only the kind of exception is defined here
+            return "e" not in o and o["exc"] == d["exp"]["exc"]
+        return matches(d["exp"], arch, o, garbled=True)
     return matches(d["exp"], arch, o)
 
 
